@@ -147,7 +147,7 @@ Proof.
   - exists (mkRV None None None None), [].
     unfold views, meta_cond, chan_keys in *. cbn [rv_meta rv_state rv_smeta rv_stream new_chan ch_epoch ch_top ch_state ch_items].
     cbn [chan_rel In] in Hrel. cbn [hview sview].
-    split; [split; [apply Hrel; tauto|]; split; [apply Hrel; tauto|]; split; [apply Hrel; tauto|]; split; apply Hrel; tauto|].
+    split; [split; [apply Hrel; auto 10|]; split; [apply Hrel; auto 10|]; split; [apply Hrel; auto 10|]; split; apply Hrel; auto 10|].
     split; [split; reflexivity|]. split; [reflexivity|]. split; [left; split; reflexivity|]. split; [reflexivity|].
     split; [reflexivity|]. split; [intros x []|].
     split; [unfold nonce_ok in Hn; apply negb_true_iff in Hn; exact Hn|]. split; [lia|].
